@@ -28,6 +28,8 @@ type hkdfObj struct {
 	pos int
 }
 
+type dhRec struct{ a, b, out *Term }
+
 type hkdfRec struct {
 	in  []*Term
 	out *Term
@@ -194,6 +196,9 @@ func init() {
 		sc := in.pack(in.arrTerms(a[1]))
 		pub := in.tc.App("x25519_base", 256, sc)
 		in.sol.Assert(in.tc.Not(in.tc.Eq(pub, in.zero256()))) // honest public keys are non-zero
+		if !sc.IsConst() {
+			in.sol.Assert(in.tc.Not(in.tc.Eq(sc, in.zero256()))) // a freshly generated scalar is not all-zero
+		}
 		in.storeArr(a[0], in.unpack(pub, 32))
 		return nil
 	}
@@ -363,6 +368,15 @@ func (in *Interp) dh(sc, pt *Term) *Term {
 		}
 		r := tc.App("x25519_dh_honest", 256, a, b)
 		in.sol.Assert(tc.Not(tc.Eq(r, in.zero256())))
+		// ideal DH: two honest exchanges give the same secret only for the same pair of scalars
+		for _, e := range in.dhApps {
+			if e.out == r {
+				continue
+			}
+			same := tc.Or(tc.And(tc.Eq(e.a, a), tc.Eq(e.b, b)), tc.And(tc.Eq(e.a, b), tc.Eq(e.b, a)))
+			in.sol.Assert(tc.Implies(tc.Eq(e.out, r), same))
+		}
+		in.dhApps = append(in.dhApps, dhRec{a, b, r})
 		return r
 	}
 	return tc.App("x25519_dh_raw", 256, sc, pt)
